@@ -225,7 +225,11 @@ pub fn build(aux: &J) -> W3Prog {
         }
         rng.shuffle(&mut pool);
         for k in pool.into_iter().take(nk) {
-            let v = match rng.below(6) {
+            let v = if rng.chance(1, 60) {
+                // a value beyond common buffer sizes (8 KiB, 16 KiB), with and without multi-byte text
+                let unit = ["z", "żó", "ab ✓"][rng.usize_below(3)];
+                Val::Str(unit.repeat(8200 / unit.len() + rng.usize_below(9000)))
+            } else { match rng.below(6) {
                 0 => Val::Str(["x", "hello", "żółw", "two\nlines", ""][rng.usize_below(5)].to_string()),
                 1 => Val::List(vec![Val::Int(1), Val::Str("s".into())]),
                 2 => {
@@ -235,7 +239,7 @@ pub fn build(aux: &J) -> W3Prog {
                     Val::Obj(inner)
                 }
                 _ => Val::Int(rng.range(-100, 100)),
-            };
+            } };
             m.insert(k, v);
         }
         maxkeys = maxkeys.max(m.len());
